@@ -15,15 +15,18 @@ EDITS = [
  ('html/individual_name.go', '\tisLiving := c.individual.IsLiving()\n\tif isLiving {', '\tisLiving := c.individual.IsLiving()\n\n\t// Living individuals may be hidden.\n\tif isLiving {'),
  ('date_range.go', '\tcase valueTime.Equal(startTime):\n\t\treturn "e"\n\n\tcase valueTime.Equal(endTime):\n\t\treturn "E"\n\n\tcase valueTime.Before(startTime):\n\t\treturn "b"\n\n\tcase valueTime.After(endTime):\n\t\treturn "A"\n', '\tcase valueTime.Before(startTime):\n\t\treturn "b"\n\n\tcase valueTime.After(endTime):\n\t\treturn "A"\n\n\tcase valueTime.Equal(endTime):\n\t\treturn "E"\n\n\tcase valueTime.Equal(startTime):\n\t\treturn "e"\n'),
  ('family_node.go', '\t\tnode.resetDocumentCaches()\n\t\tnode.husband = nil\n\t\tnode.cachedHusband = true\n', '\t\tnode.resetDocumentCaches()\n\t\tnode.resetCache()\n'),
+ ('jaro.go', 'prefixMatch', 'prefixHits', 'all'),  # a renamed local that a contract names: STALE-CONTRACT, no alarm
+ ('node_diff.go', 'diffChild', 'entry', 'all'),
  ('q/token.go', '\toriginalPosition := t.Position\n', '\toriginalPosition := t.Position // remember where we started\n'),
 ]
 tmp = tempfile.mkdtemp(prefix='gvharmless-')
 try:
     repo = tmp + '/repo'
     subprocess.run(['rsync', '-a', '--exclude', '.git', '/repo/', repo + '/'], check=True)
-    for f, old, new in EDITS:
+    for e in EDITS:
+        f, old, new = e[0], e[1], e[2]
         p = os.path.join(repo, f); s = open(p).read()
-        if s.count(old) != 1:
+        if s.count(old) != 1 and not (len(e) > 3 and e[3] == 'all' and s.count(old) > 1):
             print('STALE edit in', f); sys.exit(2)
         open(p, 'w').write(s.replace(old, new))
     if subprocess.run(['go', 'build', './...'], cwd=repo, env=ENV).returncode != 0:
